@@ -33,10 +33,29 @@ class Ctx:
     def __init__(self):
         self.atoms = {}          # id -> expr
         self.budget = 200000
+        self.canon = {}          # (function name, canonical argument polynomials) -> representative expr
+        self.prods = []          # (q id, y id, poly of x, h expr) for hypotheses q*y == x
+        self.merged = []         # (member expr, representative expr): applications identified because their arguments
+                                 # are equal as polynomials (congruence); each pair is re-checked by z3 in certify
 
     def atom(self, e):
+        if z3.is_app(e) and e.num_args() > 0 and e.decl().kind() == z3.Z3_OP_UNINTERPRETED \
+                and all(c.sort() in (z3.RealSort(), z3.IntSort()) for c in e.children()):
+            try:
+                key = (e.decl().name(), tuple(poly_key(to_poly(self, c)) for c in e.children()))
+            except NotPoly:
+                key = None
+            if key is not None:
+                rep = self.canon.setdefault(key, e)
+                if rep.get_id() != e.get_id():
+                    self.merged.append((e, rep))
+                    e = rep
         self.atoms[e.get_id()] = e
         return {((e.get_id(), 1),): Fraction(1)}
+
+
+def poly_key(p):
+    return tuple(sorted((m, c) for m, c in p.items()))
 
 
 def p_add(a, b, sb=1):
@@ -143,6 +162,7 @@ def conjuncts(f):
 def collect_rules(ctx, pc):
     """trig: list of (s_id, c_id, h_expr); defs: {v_id: (poly of e, h_expr)}"""
     trig, defs = [], {}
+    prods = ctx.prods
     for f in pc:
         for c in conjuncts(f):
             if not z3.is_eq(c):
@@ -165,6 +185,20 @@ def collect_rules(ctx, pc):
                     ctx.atoms[y.get_id()] = y
                     trig.append((y.get_id(), x.get_id(), l - r))
                     continue
+            # (product def)  q * y == x  with q an uninterpreted constant, y one atom: rewrite q*y -> x
+            if z3.is_app(l) and l.decl().kind() == z3.Z3_OP_MUL and len(l.children()) == 2:
+                qv, yv = l.children()
+                if z3.is_const(qv) and qv.decl().kind() == z3.Z3_OP_UNINTERPRETED and _num(qv) is None:
+                    try:
+                        py, px = to_poly(ctx, yv), to_poly(ctx, r)
+                    except NotPoly:
+                        py = None
+                    if py is not None and len(py) == 1 and list(py.values())[0] == 1 and len(list(py.keys())[0]) == 1 \
+                            and list(py.keys())[0][0][1] == 1:
+                        yid = list(py.keys())[0][0][0]
+                        ctx.atoms[qv.get_id()] = qv
+                        prods.append((qv.get_id(), yid, px, l - r))
+                        continue
             # (def)  v == e   with v an uninterpreted constant
             if z3.is_app(l) and l.decl().kind() == z3.Z3_OP_UNINTERPRETED and _num(l) is None \
                     and l.sort() != z3.BoolSort():
@@ -193,15 +227,36 @@ def reduce_poly(ctx, p, trig, defs):
         for m, coef in list(p.items()):
             # definitions first
             hit = None
-            for k, ex in m:
-                if k in defs:
-                    hit = ('def', k)
-                    break
-                if k in trig_by_s and ex >= 2:
-                    hit = ('trig', k)
+            md = dict(m)
+            for qid, yid, px, _h in ctx.prods:
+                if md.get(qid, 0) >= 1 and md.get(yid, 0) >= 1:
+                    hit = ('prod', (qid, yid))
                     break
             if hit is None:
+                for k, ex in m:
+                    if k in defs and not any(k == qid for qid, _y, _p, _h in ctx.prods):
+                        hit = ('def', k)
+                        break
+                    if k in trig_by_s and ex >= 2:
+                        hit = ('trig', k)
+                        break
+            if hit is None:
                 continue
+            if hit[0] == 'prod':
+                qid, yid = hit[1]
+                px = [p_ for q_, y_, p_, _h in ctx.prods if q_ == qid and y_ == yid][0]
+                rest = dict(m)
+                for kk in (qid, yid):
+                    rest[kk] -= 1
+                    if rest[kk] == 0:
+                        del rest[kk]
+                restm = tuple(sorted(rest.items()))
+                q = {restm: coef}
+                cof[('prod', qid, yid)] = p_add(cof.get(('prod', qid, yid), {}), q)
+                p = p_add(p, {m: coef}, -1)
+                p = p_add(p, p_mul(ctx, q, px))
+                changed = True
+                break
             kind, k = hit
             rest = tuple((a, e) for a, e in m if a != k)
             ex = dict(m)[k]
@@ -246,7 +301,7 @@ def certify(pc, goal, timeout_ms=20000):
             return False, None
         ctx = Ctx()
         trig, defs = collect_rules(ctx, pc)
-        if not trig and not defs:
+        if not trig and not defs and not ctx.prods:
             return False, None
         info = []
         for e in eqs:
@@ -258,6 +313,7 @@ def certify(pc, goal, timeout_ms=20000):
             # the identity, closed, to z3:  a - b - sum q_i h_i == 0
             hs = {('trig', s): h for s, c, h in trig}
             hs.update({('def', k): h for k, (pe, h) in defs.items()})
+            hs.update({('prod', q_, y_): h_ for q_, y_, _p, h_ in ctx.prods})
             comb = z3.RealVal(0)
             for key, q in cof.items():
                 if q:
@@ -269,10 +325,22 @@ def certify(pc, goal, timeout_ms=20000):
             # generalise: every opaque atom (division by a symbol, function application, ...) becomes a fresh real;
             # an identity in the fresh symbols holds in particular for the atoms' values
             subs = []
+            fresh_of = {}
             for k, at in ctx.atoms.items():
                 if not (z3.is_const(at) and at.decl().kind() == z3.Z3_OP_UNINTERPRETED):
                     fr = z3.Real('atom!%d' % k) if at.sort() == z3.RealSort() else z3.Int('atom!%d' % k)
                     subs.append((at, fr))
+                    fresh_of[k] = fr
+            # applications that were identified with a representative (equal argument polynomials): z3 must agree that
+            # the arguments are equal; then the member gets the representative's symbol (congruence)
+            for mem, rep in ctx.merged:
+                chk = z3.Solver()
+                chk.set('timeout', 5000)
+                chk.add(z3.Or([x != y for x, y in zip(mem.children(), rep.children())]))
+                if chk.check() != z3.unsat:
+                    return False, None
+                if rep.get_id() in fresh_of:
+                    subs.append((mem, fresh_of[rep.get_id()]))
             # larger atoms first so that an atom nested in another one is not rewritten underneath it
             subs.sort(key=lambda t: -len(t[0].sexpr()))
             for at, fr in subs:
